@@ -113,11 +113,13 @@ Definition r_link (x : rst) : rst :=
   let y := r_apply x (vpush_special (r_up x) (SLinked 0)) in
   {| r_linked := true; r_up := r_up y; r_fly := r_fly y; r_sent := r_sent y; r_pushed := r_pushed y; r_owed := r_owed y |}.
 
-Definition r_unlink (x : rst) : rst :=
+(* [msg]: 0 = an unlink request ("Link closed."), 1 = the agent stops / the lane goes away (no message) *)
+Definition r_unlink_as (x : rst) (msg : N) : rst :=
   if r_linked x then
-    let y := r_apply x (vpush_special (r_up x) (SUnlinked 0 0)) in
+    let y := r_apply x (vpush_special (r_up x) (SUnlinked 0 msg)) in
     {| r_linked := false; r_up := r_up y; r_fly := r_fly y; r_sent := r_sent y; r_pushed := r_pushed y; r_owed := None |}
   else x.
+Definition r_unlink (x : rst) : rst := r_unlink_as x 0.
 
 Definition r_value (x : rst) (b : body) : rst :=
   let y := r_apply x (vpush_value (r_up x) b) in
@@ -149,7 +151,8 @@ Inductive pop :=
 | PSync (r : N)                 (* remote r asks to be synced: the read task forwards the request to the lane *)
 | PWrite                        (* the agent lets the lane write (write_to_buffer) and the runtime takes it in *)
 | PLink (r : N) | PUnlink (r : N)
-| PDone (r : N).                (* the write in progress for r completes *)
+| PDone (r : N)                 (* the write in progress for r completes *)
+| PStopAll.                     (* the agent stops: unlink_all *)
 
 Fixpoint rmap (f : rst -> rst) (r : N) (m : list (N * rst)) : list (N * rst) :=
   match m with
@@ -182,6 +185,7 @@ Definition pstep (p : pipe) (o : pop) : pipe * list frame * option wres :=
       | Some x => let (x', fr) := r_done x in (set_rems p (rmap (fun _ => x') r (p_rems p)), fr, None)
       | None => (p, [], None)
       end
+  | PStopAll => (set_rems p (rall (fun x => r_unlink_as x 1) (p_rems p)), [], None)
   end.
 
 Fixpoint prun (p : pipe) (ops : list pop) : list (list frame * option wres) :=
@@ -212,6 +216,23 @@ Definition last_opt {A} (l : list A) : option A := match rev l with [] => None |
 Definition obody_eqb (a b : option body) : bool :=
   match a, b with None, None => true | Some x, Some y => body_eqb x y | _, _ => false end.
 
+
+(* ---- the link protocol per (remote, lane): linked, then events and synced, then one unlinked; repeated ---- *)
+Inductive gst := GOut | GIn.
+Definition gstep (g : option gst) (f : frame) : option gst :=        (* None: the grammar is violated *)
+  match g, f with
+  | Some _, FLinked _ => Some GIn                                      (* a link request is answered, also inside a link *)
+  | Some GIn, FEvent _ _ => Some GIn
+  | Some GIn, FSynced _ => Some GIn
+  | Some GIn, FUnlinked _ _ => Some GOut
+  | _, _ => None
+  end.
+Definition gram_from (g : option gst) (fs : list frame) : option gst := fold_left gstep fs g.
+Definition gram (fs : list frame) : option gst := gram_from (Some GOut) fs.
+Definition gram_ok (fs : list frame) : bool := match gram fs with Some _ => true | None => false end.
+Definition special_frames (a : special) : list frame := frames_of (vtask (WSpecial a)).
+Definition count_synced (fs : list frame) : nat := length (filter (fun f => match f with FSynced _ => true | _ => false end) fs).
+
 (* ---- correspondence ---- *)
 (* the same operations on the general write-task model of Model/Uplinks.v (one registered lane) *)
 Definition resp_of (a : lresp) : option N * resp :=
@@ -231,6 +252,7 @@ Fixpoint bridge_run (l : vlane) (w : wstate) (ops : list pop) : list (list frame
       | PLink r => [] :: bridge_run l (fst (wstep w (OLink r 0))) t
       | PUnlink r => [] :: bridge_run l (fst (wstep w (OUnlink r 0))) t
       | PDone r => let (w', fr) := wstep w (ODone r) in fr :: bridge_run l w' t
+      | PStopAll => [] :: bridge_run l (fst (wstep w OUnlinkAll)) t
       end
   end.
 
@@ -270,7 +292,11 @@ Definition remotes_of (ops : list pop) : list N :=
 
 Definition vp_oracle_bad (cs : list (N * vpcase)) : list N :=
   map fst (filter (fun c => let '(init, ops, outs) := snd c in
-     negb (forallb (fun r => ss (events_of (frames_for r ops outs)) (hist_of init ops)) (remotes_of ops))) cs).
+     negb (forallb (fun r => ss (events_of (frames_for r ops outs)) (hist_of init ops)
+                             && gram_ok (frames_for r ops outs)
+                             && Nat.leb (count_synced (frames_for r ops outs))
+                                        (length (filter (fun o => match o with PSync r' => r =? r' | _ => false end) ops)))
+                   (remotes_of ops))) cs).
 
 (* ---- end-to-end histories (the real agent on the real runtime; the schedule is the runtime's own) ---- *)
 (* per (remote, lane) stream: the lane's history as recorded by its on_set handler (initial value first), the
